@@ -257,6 +257,9 @@ func genCaseX(r *prng.R, id string, level int, big bool, deep bool) proto.Case {
 	for i := 0; i < nreq; i++ {
 		p := &pending{q: prng.Pick(r, targets), r: i + 1, hdrs: prng.Pick(r, hdrPool)}
 		p.costs = genCosts(r, chainOf(qs, p.q))
+		if r.Chance(45) { // a body of any shape; what is counted does not depend on it
+			p.costs += fmt.Sprintf(" body=%d", r.Range(1, 6))
+		}
 		switch {
 		case mode < 35:
 			p.prog = []string{"req"}
